@@ -581,3 +581,120 @@ class MarkerTable:
                 if k is not None:
                     hits.add(k)
         return hits
+
+
+# -----------------------------------------------------------------------------
+# Link security as a HISTORY of events (used by C11's event-driven histories).
+#
+# HCI events written out byte by byte from Core Vol 4 Part E 7.7 (packet indicator 0x04, event code,
+# parameter length, parameters): these are what a controller sends to the host of the GATT server.
+#   7.7.6  Authentication Complete             0x06: Status, Connection_Handle
+#   7.7.8  Encryption Change [v1]              0x08: Status, Connection_Handle, Encryption_Enabled
+#          Encryption Change [v2]              0x59: Status, Connection_Handle, Encryption_Enabled, Encryption_Key_Size
+#   7.7.39 Encryption Key Refresh Complete     0x30: Status, Connection_Handle
+# -----------------------------------------------------------------------------
+HCI_EVENT_PACKET = 0x04
+EV_AUTHENTICATION_COMPLETE = 0x06
+EV_ENCRYPTION_CHANGE = 0x08
+EV_ENCRYPTION_KEY_REFRESH_COMPLETE = 0x30
+EV_ENCRYPTION_CHANGE_V2 = 0x59
+
+ST_SUCCESS = 0x00
+ST_AUTHENTICATION_FAILURE = 0x05
+ST_PIN_OR_KEY_MISSING = 0x06
+ST_LMP_RESPONSE_TIMEOUT = 0x22
+
+
+def _hci_event(code: int, params: bytes) -> bytes:
+    return bytes([HCI_EVENT_PACKET, code, len(params)]) + params
+
+
+def hci_authentication_complete(handle: int, status: int = ST_SUCCESS) -> bytes:
+    return _hci_event(EV_AUTHENTICATION_COMPLETE, bytes([status]) + h(handle))
+
+
+def hci_encryption_change(handle: int, enabled: int, status: int = ST_SUCCESS) -> bytes:
+    return _hci_event(EV_ENCRYPTION_CHANGE, bytes([status]) + h(handle) + bytes([enabled]))
+
+
+def hci_encryption_change_v2(handle: int, enabled: int, key_size: int, status: int = ST_SUCCESS) -> bytes:
+    return _hci_event(EV_ENCRYPTION_CHANGE_V2, bytes([status]) + h(handle) + bytes([enabled, key_size]))
+
+
+def hci_encryption_key_refresh_complete(handle: int, status: int = ST_SUCCESS) -> bytes:
+    return _hci_event(EV_ENCRYPTION_KEY_REFRESH_COMPLETE, bytes([status]) + h(handle))
+
+
+class LinkSecurity:
+    """What a connection's security IS after a history of events, per the spec and nothing else:
+
+      new connection                        not encrypted, not authenticated (whatever an earlier
+                                            connection on the same handle was)
+      Encryption Change, status success     encrypted := (Encryption_Enabled != 0), whatever the form (v1 / v2)
+                                            and whatever key size it carries; the event says nothing about how the
+                                            key was obtained, so it does not make the link authenticated
+      Encryption Change, status failure     nothing changes
+      Encryption Key Refresh Complete       nothing changes (success: the link stays encrypted with a new key)
+      Authentication Complete, success      the link is authenticated
+      Authentication Complete, failure      nothing changes
+      pairing completed                     the link is now encrypted with a key of that pairing: it is authenticated
+                                            iff the pairing method gave MITM protection (a Just Works key is not)
+      pairing failed                        nothing changes
+
+    An attribute that requires authentication asks for an *authenticated and encrypted* link (GAP Part C
+    10.2.1, LE security mode 1 level 3 "authenticated pairing with encryption"), so what the permission
+    predicate is given is  auth = authenticated and encrypted."""
+
+    def __init__(self):
+        self.encrypted = False
+        self.authenticated = False
+        self.key_size = 0
+        self.trail: list[str] = ['connection']
+
+    def new_connection(self):
+        self.encrypted = False
+        self.authenticated = False
+        self.key_size = 0
+        self.trail.append('reconnection')
+
+    def encryption_change(self, status: int, enabled: int, key_size: int | None = None):
+        if status == ST_SUCCESS:
+            self.encrypted = enabled != 0
+            self.key_size = (key_size or 0) if self.encrypted else 0
+        self.trail.append(f'enc({status:#x},{enabled},{key_size})')
+
+    def key_refresh(self, status: int):
+        self.trail.append(f'refresh({status:#x})')
+
+    def authentication_complete(self, status: int):
+        if status == ST_SUCCESS:
+            self.authenticated = True
+        self.trail.append(f'auth({status:#x})')
+
+    def pairing_complete(self, authenticated_key: bool):
+        self.authenticated = bool(authenticated_key)
+        self.trail.append(f'paired({"mitm" if authenticated_key else "just-works"})')
+
+    def pairing_failed(self):
+        self.trail.append('pairing-failed')
+
+    @property
+    def enc(self) -> bool:
+        return self.encrypted
+
+    @property
+    def auth(self) -> bool:
+        return self.authenticated and self.encrypted
+
+
+def unmet_requirement(perm: int, enc: bool, auth: bool, write: bool = False):
+    """Which security requirement of the read (write) side the link fails: 'encryption', 'authentication',
+    'authorization' (the first in that order), or None."""
+    e, a, z = (P_WRITE_ENC, P_WRITE_AUTHN, P_WRITE_AUTHZ) if write else (P_READ_ENC, P_READ_AUTHN, P_READ_AUTHZ)
+    if perm & e and not enc:
+        return 'encryption'
+    if perm & a and not auth:
+        return 'authentication'
+    if perm & z:
+        return 'authorization'
+    return None
